@@ -108,7 +108,7 @@ fn write_acquire_body(inside: bool) {
                 && vv_eq(&n.released, &o.released) && vv_eq(&n.dpor_vv, &o.dpor_vv));
         } else if o.op.map(|x| x.0) == Some(0) {
             oblige!("C07.rwlock.write_acquire.blocks_every_other_contender", n.st == StView::Blocked && th_view_eq_except_state(&o, &n));
-            oblige!("C08.token_kept.rwlock_write_acquire", !has_token(&o));
+            oblige!("C08.token_kept.rwlock_write_acquire", has_token(&n) == has_token(&o));
         } else {
             oblige!("C07.rwlock.write_acquire.frame_other_threads", th_view_eq(&o, &n));
         }
@@ -155,7 +155,7 @@ fn write_release_body(inside: bool) {
     while i < N {
         let (o, n) = (old.th[i], new.th[i]);
         if i != a && o.op.map(|x| x.0) == Some(0) && o.st == StView::Blocked {
-            oblige!("C07.rwlock.write_release.wakes_all_blocked_contenders", n.st == (StView::Runnable { unparked: false }) && th_view_eq_except_state(&o, &n));
+            oblige!("C07.rwlock.write_release.wakes_all_blocked_contenders", n.st == woken(&o) && !n.pending_unpark && th_view_eq_except_state(&o, &n));
         } else if i != a && o.op.map(|x| x.0) == Some(0) && has_token(&o) {
             oblige!("C08.token_kept.rwlock_release", th_view_eq(&o, &n));
         } else if i != a && o.op.map(|x| x.0) == Some(0) {
